@@ -11,7 +11,8 @@ EXTENDS Naturals, Sequences, FiniteSets, TLC, Json
 
 CONSTANTS AppPool,      \* records [id, full, parent, local]: candidate mounted apps (full = joined mount prefix, chars)
           MaxApps,
-          ErrKinds,     \* "fiber418" | "plain" | "notfound"
+          ErrKinds,     \* "fiber418" | "plain" | "notfound" | "wrapped418" (a framework error value a middleware annotated on the way
+                        \* up, fmt.Errorf("...: %w", err): still a framework error value)
           Tails         \* what is appended to a prefix to form request paths (chars)
 
 VARIABLES apps,        \* chosen subset of AppPool (closed under parent)
@@ -60,7 +61,7 @@ Deliver == /\ phase = "raised"
               /\ delivered' = Append(delivered, h)
               /\ status' = IF cfg[h].fails # "no" THEN 500
                            ELSE IF cfg[h].has THEN 520 + h           \* the harness' custom handlers answer 520+id
-                           ELSE CASE kind = "fiber418" -> 418 [] kind = "notfound" -> 404 [] OTHER -> 500
+                           ELSE CASE kind \in {"fiber418", "wrapped418"} -> 418 [] kind = "notfound" -> 404 [] OTHER -> 500
            /\ phase' = "done" /\ UNCHANGED <<apps, cfg, path, kind>>
 
 Next == Configure \/ Raise \/ Deliver
